@@ -2,6 +2,7 @@ use crate::report::Report;
 use crate::Outcome;
 use serde_json::Value;
 
+pub mod c01;
 pub mod c02;
 pub mod c03;
 pub mod c04;
@@ -24,6 +25,7 @@ pub mod c20;
 
 pub fn run(id: &str, thorough: bool) -> Option<Outcome> {
     match id {
+        "C01" => Some(c01::run(thorough)),
         "C02" => Some(c02::run(thorough)),
         "C03" => Some(c03::run(thorough)),
         "C04" => Some(c04::run(thorough)),
@@ -49,6 +51,7 @@ pub fn run(id: &str, thorough: bool) -> Option<Outcome> {
 
 pub fn replay(id: &str, ex: &Value) -> Option<Report> {
     match id {
+        "C01" => Some(c01::replay(ex)),
         "C02" => Some(c02::replay(ex)),
         "C03" => Some(c03::replay(ex)),
         "C04" => Some(c04::replay(ex)),
